@@ -2,7 +2,7 @@
 import numpy as np
 
 from .. import common, gen, sim
-from . import base
+from . import base, c19
 from .base import FX, GX
 
 ID = "C05"
@@ -148,7 +148,8 @@ def monitor(spec, res, acc):
                     dict(t=t, cc=float(cc), cc_ns=float(ccns)))
         zr = g[GX["z_root"]]
         zmin, zmax = float(cr["Zmin"]), float(cr["Zmax"])
-        zgw = s["z_gw"] if wt else None
+        # the table of that date as the user configured it (not the model's own daily series)
+        zgw = float(c19.ref_zgw(spec["gw"], base.date_of(tr, t))) if (wt and spec.get("gw")) else (s["z_gw"] if wt else None)
         if not (zmin - E <= zr <= zmax + E):
             acc.add("root-range", f"step {t}: rooting depth {zr!r} outside [{zmin}, {zmax}]",
                     dict(t=t, z_root=float(zr), Zmin=zmin, Zmax=zmax))
